@@ -85,4 +85,9 @@ CLAIMED = {
   text="Every documented shorthand x every base over the value set (zeros in leading positions, pre-release bases) is parsed and evaluated on a probe grid that contains the base, the version just below it, the last version before the upper bound, the upper bound and pre-releases around it; membership must equal the documented interval.",
   note="The desugaring table is the oracle and is written from the ecosystems' documentation as restated in the property; upstream-disagreeing points (pre-releases of an exclusive upper bound outside npm) are don't-care and counted. Composer probes are stable, pypi probes final/post, maven bare versions and cargo bare versions are not claimed.",
   ref="DESIGN.md 4 (C05)"),
+ "C20": dict(
+  technique="bounded-exhaustive enumeration of (range of the full range grammar, version of a sub-universe closed under Compare-equal spellings) on the real Contains; equal-class constancy decides all equal pairs and contiguity of member classes along the rank order decides convexity for all triples",
+  text="For every accepted range the whole membership vector over the universe is computed by the real code; it must be constant on each equivalence class of the real Compare and, for conjunctive ranges, its member classes must be contiguous - which decides every pair and every triple of the universe, not a sample.",
+  note="Universe: stride sub-universe of C01's universe plus up to 3 equal spellings per member; elements of C01's known-intransitive classes excluded; pypi '===' and alpm pkgrel-presence mixing excluded as stated.",
+  ref="DESIGN.md 4 (C20)"),
 }
